@@ -218,10 +218,34 @@ func VxC38Stream() {
 		total += int(s)
 	}
 	vxAssert(total == len(sink.b), "Write reported a byte count different from what it wrote")
+	// cut points are chosen relative to message boundaries (message k, distance from its start or
+	// from its end) so that they mean the same thing for the modelled and the real codec
 	c1, c2 := len(sink.b), len(sink.b)
 	if vxParam("MODE") == 0 {
-		c1 = vxConcrete(vxIntRange(0, len(sink.b)))
-		c2 = vxConcrete(vxIntRange(c1, len(sink.b)))
+		cut := func() int {
+			k := vxConcrete(vxIntRange(0, m-1))
+			start := 0
+			for i := 0; i < k; i++ {
+				start += int(sizes[i])
+			}
+			end := start + int(sizes[k])
+			if vxBool() {
+				off := vxConcrete(vxIntRange(0, 24)) // inside the header or the first body bytes
+				if start+off > end {
+					return end
+				}
+				return start + off
+			}
+			off := vxConcrete(vxIntRange(0, 3)) // inside the body, counted from the message end
+			if end-off < start {
+				return start
+			}
+			return end - off
+		}
+		c1, c2 = cut(), cut()
+		if c2 < c1 {
+			c1, c2 = c2, c1
+		}
 	}
 	r := HeaderFramer().Reader(&vxChunked{b: sink.b, c1: c1, c2: c2})
 	for i := range msgs {
